@@ -3,7 +3,7 @@
 cd /verif
 for d in seeded/*/; do
   id=$(basename $d); prop=${id%%-*}
-  r=$(/venv/bin/python tools/try_seed.py $prop $d 2>&1 | grep -E '"caught"' | tr -d ' ,')
+  r=$(/venv/bin/python tools/try_seed.py $prop /verif/$d 2>&1 | grep -E '"caught"' | tr -d ' ,')
   echo "$id $r"
 done
 git -C /repo status --short | head -3
